@@ -1,7 +1,7 @@
 ---------------------------- MODULE StreamOpsTrace ----------------------------
 (* Observation records for C01 judged by StreamOps (operator expressions) and Broadcast           *)
 (* (broadcasting functions): one initial state per record.                                         *)
-EXTENDS StreamOpsC01, Json, IOUtils
+EXTENDS StreamOps, Json, IOUtils
 
 B == INSTANCE Broadcast WITH kind <- "scalar", n <- 1
 
